@@ -380,8 +380,8 @@ fn boundary_positions(l: u64) -> Vec<u128> {
 pub fn run_c02(run: &mut Run) -> Stats {
     let tier = run.tier;
     let small: Vec<u64> = vec![1, 2, 3, 9, 10, 11];
-    let large: Vec<u64> = tier.pick(vec![240, 1 << 32, u64::MAX], vec![100, 240, 1000, 65_537, (1 << 32) - 1, 1 << 32, 1 << 63, u64::MAX - 1, u64::MAX]);
-    let (kmax, dev, max_events) = tier.pick((3, 1, 4), (4, 2, 5));
+    let large: Vec<u64> = tier.pick(vec![100, 240, 65_537, 1 << 32, 1 << 63, u64::MAX], vec![100, 240, 1000, 65_537, (1 << 32) - 1, 1 << 32, (1 << 32) + 1, (1 << 63) - 1, 1 << 63, u64::MAX - 1, u64::MAX]);
+    let (kmax, dev, max_events) = tier.pick((4, 2, 5), (4, 2, 6));
     run.rule = "GET x every single byte-range-spec (three forms) with positions 0..=L+2 for L in {1,2,3,9,10,11} and boundary positions {0,1,L/2,L-2,L-1,L,L+1,2^32,2^63,2^64-2,2^64-1} for large L, plus the Range-less 200, x every contract-honouring chunking of the predicted get_range call; oracle = the response's own Content-Range parsed back + descriptor-exact comparison of every delivered byte with the position-dependent entity content + recorded get_range arguments. non-trivial = distinct (Range value, L, chunking) answered 200/206 with a body".into();
     run.bounds = json!({"small_L": small, "large_L": large.iter().map(|l| l.to_string()).collect::<Vec<_>>(), "kmax_chunks": kmax, "benign_deviations": dev, "max_events": max_events});
     run.assumptions.push("entity streams honour the Entity contract".into());
@@ -464,14 +464,15 @@ pub fn run_c03(run: &mut Run) -> Stats {
         let specs = spec_strings(&small_positions(l));
         let mut v = Vec::new();
         join_sets(&specs, 1, &seps, &mut v);
-        if l <= 3 || tier == Tier::Thorough {
-            join_sets(&specs, 2, &seps, &mut v);
+        join_sets(&specs, 2, &seps, &mut v);
+        if l <= 2 && tier == Tier::Thorough {
+            join_sets(&specs, 3, &[","], &mut v);
         }
         headers.extend(v.into_iter().map(|h| (l, h)));
     }
     // (b) boundary positions incl. 2^64, 1..n specs
-    let n_max = tier.pick(2, 3);
-    for l in tier.pick(vec![10u64, 400, u64::MAX], vec![1u64, 10, 240, 400, 1000, 1 << 32, 1 << 63, u64::MAX]) {
+    let n_max = 3;
+    for l in tier.pick(vec![1u64, 10, 400, 1 << 32, u64::MAX], vec![1u64, 10, 240, 400, 1000, 1 << 32, 1 << 63, u64::MAX - 1, u64::MAX]) {
         let lq = l as u128;
         let mut pos = vec![0, 1, lq.saturating_sub(1), lq, lq + 1, 1 << 32, 1 << 63, (1 << 64) - 2, (1 << 64) - 1, 1 << 64];
         pos.sort();
@@ -479,15 +480,9 @@ pub fn run_c03(run: &mut Run) -> Stats {
         let specs = spec_strings(&pos);
         let mut v = Vec::new();
         join_sets(&specs, 1, &seps, &mut v);
-        if tier == Tier::Thorough {
-            join_sets(&specs, 2, &[","], &mut v);
-        } else {
-            // pairs over a thinned spec list
-            let thin: Vec<String> = specs.iter().step_by(3).cloned().collect();
-            join_sets(&thin, 2, &[","], &mut v);
-        }
+        join_sets(&specs, 2, &[","], &mut v);
         if n_max >= 3 {
-            let thin: Vec<String> = specs.iter().step_by(7).cloned().collect();
+            let thin: Vec<String> = specs.iter().step_by(tier.pick(7, 3)).cloned().collect();
             join_sets(&thin, 3, &[", "], &mut v);
         }
         headers.extend(v.into_iter().map(|h| (l, h)));
@@ -593,10 +588,9 @@ pub fn run_c04(run: &mut Run) -> Stats {
     let mtimes: Vec<Option<std::time::SystemTime>> = vec![None, Some(gen::t(gen::LM, 0)), Some(gen::t(gen::LM, 1_000_000)), Some(gen::t(gen::LM, 999_999_999))];
     let mut dates: Vec<Option<Vec<u8>>> = vec![None, Some(fmt_imf(gen::LM - 1).into_bytes()), Some(fmt_imf(gen::LM).into_bytes()), Some(fmt_imf(gen::LM + 1).into_bytes())];
     if tier == Tier::Thorough {
-        for d in [gen::LM - 1, gen::LM, gen::LM + 1] {
-            dates.push(Some(fmt_rfc850(d).into_bytes()));
-            dates.push(Some(fmt_asctime(d).into_bytes()));
-        }
+        // obsolete spellings: one value of each (the three relations are covered by IMF-fixdate)
+        dates.push(Some(fmt_rfc850(gen::LM).into_bytes()));
+        dates.push(Some(fmt_asctime(gen::LM - 1).into_bytes()));
     }
     // outer: etag x mtime x ims x ius x method x (which header gets the big list)
     let mut outer = Vec::new();
@@ -619,7 +613,16 @@ pub fn run_c04(run: &mut Run) -> Stats {
     par_for(outer.len() as u64, threads(), |i, st| {
         let (e, mt, ims, ius, me, big_is_im) = &outer[i as usize];
         let entity = ent(10, e.as_deref(), *mt, vec![], vec![]);
-        let (ims_l, inm_l) = if *big_is_im { (&big, &small) } else { (&small, &big) };
+        // the longest lists (k = 4) only against the strong etag, the others get k - 1
+        let trim = tier == Tier::Thorough && e.as_deref() != Some(b"\"v1\"");
+        let big_t: Vec<Option<Vec<u8>>>;
+        let big_ref = if trim {
+            big_t = tag_lists(ka - 1, &seps);
+            &big_t
+        } else {
+            &big
+        };
+        let (ims_l, inm_l) = if *big_is_im { (big_ref, &small) } else { (&small, big_ref) };
         let mut order = i << 32;
         let base = add(&add(&Req::new(me), "if-modified-since", ims), "if-unmodified-since", ius);
         for im in ims_l {
@@ -656,7 +659,7 @@ pub fn run_c05(run: &mut Run) -> Stats {
         if_ranges.push(fmt_asctime(d).into_bytes());
     }
     let alpha: [u8; 7] = [b'"', b'W', b'/', b'v', b'1', b' ', 0xff];
-    let maxlen = tier.pick(3, 4);
+    let maxlen = tier.pick(4, 5);
     let mut cur: Vec<Vec<u8>> = vec![vec![]];
     for _ in 0..maxlen {
         let mut next = Vec::new();
@@ -803,7 +806,7 @@ pub fn run_c06(run: &mut Run) -> Stats {
 pub fn fault_space(tier: Tier) -> Vec<(&'static str, u64, usize, usize)> {
     // (shape, range length, number of parts, faulty part)
     let mut v = Vec::new();
-    for n in [1u64, 2, 5] {
+    for n in [1u64, 2, 3, 5] {
         v.push(("full", n, 1, 0));
         v.push(("single", n, 1, 0));
         for parts in [2usize, 3] {
@@ -834,8 +837,8 @@ fn fault_request(shape: &str, n: u64, parts: usize) -> (Req, u64) {
 pub fn run_faults(run: &mut Run, extra_polls: usize, two_faults: bool) -> Stats {
     let tier = run.tier;
     let space = fault_space(tier);
-    let (kmax, dev, max_events) = tier.pick((3, 1, 4), (3, 2, 5));
-    run.bounds = json!({"range_lengths": [1, 2, 5], "kmax_chunks": kmax, "benign_deviations_before_fault": dev, "max_events": max_events, "extra_polls": extra_polls, "two_faults": two_faults});
+    let (kmax, dev, max_events) = tier.pick((3, 2, 5), (4, 2, 6));
+    run.bounds = json!({"range_lengths": [1, 2, 3, 5], "kmax_chunks": kmax, "benign_deviations_before_fault": dev, "max_events": max_events, "extra_polls": extra_polls, "two_faults": two_faults});
     let ev = Eval { prop: &run.prop.clone(), extra_polls };
     par_for(space.len() as u64, threads(), |i, st| {
         let (shape, n, parts, fp) = space[i as usize];
@@ -889,7 +892,7 @@ pub fn run_c07(run: &mut Run) -> Stats {
 pub fn run_c13(run: &mut Run) -> Stats {
     let tier = run.tier;
     let alpha: [u8; 14] = [b'0', b'1', b'9', b'-', b',', b' ', b'\t', b'=', b'"', b'W', b'/', b'*', b'+', 0xff];
-    let maxlen = tier.pick(3, 4);
+    let maxlen = tier.pick(4, 5);
     let prefixes: [&[u8]; 4] = [b"", b"bytes=", b"W/\"", b"\""];
     let hdrs = ["range", "if-range", "if-match", "if-none-match", "if-modified-since", "if-unmodified-since"];
     let methods = ["GET", "HEAD", "POST", "PUT", "DELETE", "OPTIONS", "PATCH", "TRACE", "CONNECT", "FOO", "get"];
@@ -1344,6 +1347,12 @@ pub fn run_c12_serve(run: &mut Run) -> Stats {
     run.extra.insert("serve_side_executions".into(), json!(st.evaluations));
     run.extra.insert("streaming_histories".into(), json!(s4.evaluations));
     st.merge(s4);
+    // ... and under the controlled scheduler: the consumer samples the hint and the flag before
+    // every poll while the producer runs concurrently (every interleaving, preemption bound 2)
+    let (s5, fam) = crate::sched_mc::run_monitor_families(&run.prop, tier);
+    run.extra.insert("concurrent_schedules".into(), json!(s5.evaluations));
+    run.extra.insert("concurrent_families".into(), fam);
+    st.merge(s5);
     run.rule = "monitor (size_hint lower/upper, is_end_stream sampled before every poll) on every execution of: the C01 space (all requests x chunkings), the C06 multipart space, every Body::from / Body::empty conversion over lengths {0,1,5}, and the C08/C09/C11 streaming history sweeps (raw and gzip writers, with abort and body drop). Retrospective oracle per sample: lower <= bytes delivered afterwards <= upper on a clean end; exact hint for serve / Body::from bodies; is_end_stream true => no later bytes and no later error. non-trivial = distinct (case, chunking) or (config, history)".into();
     run.bounds = json!({"serve": "as C01 and C06", "streaming": "as C08/C11 one level shallower"});
     st
@@ -1364,6 +1373,10 @@ pub fn run_c20_serve(run: &mut Run) -> Stats {
     run.extra.insert("serve_side_executions".into(), json!(st.evaluations));
     run.extra.insert("streaming_histories".into(), json!(s4.evaluations));
     st.merge(s4);
+    let (s5, fam) = crate::sched_mc::run_monitor_families(&run.prop, tier);
+    run.extra.insert("concurrent_schedules".into(), json!(s5.evaluations));
+    run.extra.insert("concurrent_families".into(), fam);
+    st.merge(s5);
     run.rule = "every execution of the fault space of C07 (all shapes x fault kinds x positions), the C06 multipart space, the C02 single-range space, all Body::from conversions and the C08/C09/C11 streaming history sweeps is continued for 4 more polls after its first terminal event (clean end, entity error, too-short, too-long, abort); oracle: none of them panics (debug assertions on) or yields bytes. The counters list the (shape : fault : terminal) cells reached. non-trivial = distinct (shape, fault script vector) or (config, history)".into();
     run.assumptions.push("entity streams stay finished once finished or failed (fused scripts; Err is the last event of a script) -- the premise in the statement".into());
     st
